@@ -66,6 +66,7 @@ type r1 struct {
 	// callback fields
 	fieldCalls map[*types.Var][]r1FieldCall
 	fieldLits  map[*types.Var]map[*ast.FuncLit]*r1Context // literal -> context that stored it
+	fieldFuncs map[*types.Var]map[*types.Func]*r1Context  // method value stored in a callback field
 	// lock order edges
 	edges map[[2]*types.Var]token.Pos
 	// hygiene findings, keyed to dedupe
@@ -148,7 +149,7 @@ func (r *r1) enqueue(x *r1Context) {
 
 func runR1(c *Ctx) {
 	r := &r1{c: c, seen: map[string]bool{}, accesses: map[*types.Var][]*r1Access{},
-		fieldCalls: map[*types.Var][]r1FieldCall{}, fieldLits: map[*types.Var]map[*ast.FuncLit]*r1Context{},
+		fieldCalls: map[*types.Var][]r1FieldCall{}, fieldLits: map[*types.Var]map[*ast.FuncLit]*r1Context{}, fieldFuncs: map[*types.Var]map[*types.Func]*r1Context{},
 		edges: map[[2]*types.Var]token.Pos{}, hygiene: map[string]*Obligation{},
 		freshFn: map[*core.FuncDecl]bool{}, ctxVars: map[*r1Context]map[*types.Var]bool{}, capturedBy: map[*types.Var][]*ast.FuncLit{}, escOf: map[*ast.FuncLit]core.LitEscape{}}
 	// escape information for all functions in scope
@@ -207,6 +208,25 @@ func runR1(c *Ctx) {
 					}
 				}
 				r.enqueue(x)
+			}
+		}
+		var ffields []*types.Var
+		for f := range r.fieldFuncs {
+			ffields = append(ffields, f)
+		}
+		sort.Slice(ffields, func(i, j int) bool { return core.FieldName(ffields[i]) < core.FieldName(ffields[j]) })
+		for _, f := range ffields {
+			contract := r.contractLocks(f)
+			for fn, from := range r.fieldFuncs[f] {
+				k := core.FieldName(f) + "@" + core.FuncName(fn) + "{" + lockKey(contract) + "}"
+				d := c.Prog.Decl(fn)
+				if doneLits[k] || d == nil {
+					continue
+				}
+				doneLits[k] = true
+				added = true
+				r.enqueue(&r1Context{decl: d, locks: contract, kind: "callback-field",
+					chain: from.chain + " → method value " + core.FuncName(fn) + " stored in " + core.FieldName(f) + " → invoked under {" + lockKey(contract) + "}"})
 			}
 		}
 		if !added && len(r.work) == 0 {
@@ -326,6 +346,9 @@ func (r *r1) walkContext(x *r1Context) {
 					if ev.Val.Kind == core.VFuncLit && ev.Var != nil {
 						r.storeLit(ev.Var, ev.Val.Lit, x)
 					}
+					if ev.Val.Kind == core.VMethodVal && ev.Var != nil {
+						r.storeFunc(ev.Var, ev.Val.Fn, x)
+					}
 					continue
 				}
 				if v := identVar(ev.Lhs, ev.Frame); v != nil && !v.IsField() {
@@ -334,6 +357,9 @@ func (r *r1) walkContext(x *r1Context) {
 				} else if ev.Var != nil && ev.Var.IsField() {
 					if ev.Val.Kind == core.VFuncLit {
 						r.storeLit(ev.Var, ev.Val.Lit, x)
+					}
+					if ev.Val.Kind == core.VMethodVal {
+						r.storeFunc(ev.Var, ev.Val.Fn, x)
 					}
 					// a fresh object stored into a field stops being private
 					if ev.Rhs != nil {
@@ -358,6 +384,11 @@ func (r *r1) walkContext(x *r1Context) {
 				} else if ev.Val.Kind == core.VMethodVal {
 					// a method value created under a lockset: the method may be called under it
 					if d := c.Prog.Decl(ev.Val.Fn); d != nil && c.InScope(RelPkg(d.Pkg.PkgPath)) {
+						if methodValueBoundInCallee(c, p.Events[i+1:], ev.Node) {
+							// handed to a function of the module as an argument: what happens to it (called
+							// under the callee's locks, stored in a callback field) is decided there
+							continue
+						}
 						locks := ev.Locks
 						if methodValueRunsLater(p.Events[i+1:], ev.Node) {
 							// handed to go / time.AfterFunc: it runs on another goroutine, with no lock of this path
@@ -493,6 +524,19 @@ func pkgPathOf(v *types.Var) string {
 		return ""
 	}
 	return v.Pkg().Path()
+}
+
+func (r *r1) storeFunc(f *types.Var, fn *types.Func, x *r1Context) {
+	f = f.Origin()
+	if _, ok := f.Type().Underlying().(*types.Signature); !ok || fn == nil {
+		return
+	}
+	if r.fieldFuncs[f] == nil {
+		r.fieldFuncs[f] = map[*types.Func]*r1Context{}
+	}
+	if _, ok := r.fieldFuncs[f][fn]; !ok {
+		r.fieldFuncs[f][fn] = x
+	}
 }
 
 func (r *r1) storeLit(f *types.Var, lit *ast.FuncLit, x *r1Context) {
@@ -642,6 +686,9 @@ func (r *r1) handleCall(ev *core.Event, x *r1Context, fresh, created map[types.O
 			lits = append(lits, ev.ArgVals[i].Lit)
 		} else if v := identVar(arg, ev.Frame); v != nil && ei != nil {
 			lits = ei.Bound[v]
+		}
+		if i < len(ev.ArgVals) && ev.ArgVals[i].Kind == core.VMethodVal && pobj != nil && calleeDecl != nil {
+			nx.binds[pobj] = ev.ArgVals[i]
 		}
 		for _, lit := range lits {
 			if pobj != nil && len(lits) == 1 {
@@ -1033,4 +1080,20 @@ func sharesObject(d *core.FuncDecl, obj types.Object) bool {
 		return !shared
 	})
 	return shared
+}
+
+// methodValueBoundInCallee: the method value (node) is an argument of a synchronous call of a declared
+// module function.
+func methodValueBoundInCallee(c *Ctx, rest []*core.Event, node ast.Node) bool {
+	for _, ev := range rest {
+		if (ev.Kind != core.KCall && ev.Kind != core.KGo && ev.Kind != core.KEnter) || ev.Call == nil {
+			continue
+		}
+		for _, a := range ev.Call.Args {
+			if unparen(a) == node {
+				return ev.Kind != core.KGo && ev.Callee != nil && c.Prog.Decl(ev.Callee) != nil
+			}
+		}
+	}
+	return false
 }
